@@ -93,5 +93,40 @@ theorem Stale.current {a : Arena} {x : NodeId} (h : Stale a x) : LiveId a (a.idA
   rw [idAt_of_slot hs] at e
   exact (congrArg NodeId.stamp e)
 
+theorem rd_none {α : Type} (a : Arena) (x : NodeId) (k : Slot → Step α) (h : a.slot x.index0 = none) :
+    rd a x k = .panic a := by
+  unfold rd; unfold slot at h; rw [h]
+
+/-- Every call with an id beyond the slot vector panics on its first `arena[id]` (index out of bounds;
+    `following_siblings` / `preceding_siblings`: `arena.get(id).unwrap()`), nothing written. -/
+theorem out_of_range_panics (a : Arena) (x : NodeId) (h : a.slot x.index0 = none) (n : Nat) :
+    detach a x = .panic a ∧ remove a x = .panic a ∧ removeSubtree a x = .panic a ∧
+    Arena.isRemoved a x = .panic a ∧ value a x = .panic a ∧
+    children a x n = .panic a ∧ reverseChildren a x n = .panic a ∧
+    ancestors a x (n + 1) = .panic a ∧ followingSiblings a x n = .panic a ∧ precedingSiblings a x n = .panic a ∧
+    traverse a x (n + 1) = .panic a ∧ reverseTraverse a x (n + 1) = .panic a ∧ descendants a x (n + 1) = .panic a := by
+  have hd : detach a x = .panic a := by
+    unfold detach detachFromSiblings
+    rw [rd_none a x _ h]; rfl
+  have hg : a.get x = none := h
+  have ht : traverse a x (n + 1) = .panic a := by
+    unfold traverse traverseGo
+    simp only [reduceCtorEq, if_false, nextTraverse]
+    rw [rd_none a x _ h]
+  refine ⟨hd, ?_, ?_, ?_, ?_, ?_, ?_, ?_, ?_, ?_, ht, ?_, ?_⟩
+  · unfold remove; rw [rd_none a x _ h]
+  · unfold removeSubtree; rw [hd]; rfl
+  · unfold Arena.isRemoved; rw [rd_none a x _ h]
+  · unfold value; rw [rd_none a x _ h]
+  · unfold children; rw [rd_none a x _ h]
+  · unfold reverseChildren; rw [rd_none a x _ h]
+  · unfold ancestors walk; simp only []; rw [rd_none a x _ h]
+  · unfold followingSiblings parentField; rw [hg]
+  · unfold precedingSiblings parentField; rw [hg]
+  · unfold reverseTraverse reverseTraverseGo
+    simp only [reduceCtorEq, if_false, prevTraverse]
+    rw [rd_none a x _ h]
+  · unfold descendants; rw [ht]; rfl
+
 end Arena
 end XotModel
